@@ -106,13 +106,22 @@ def run_shard(pid, tier, seed, shard, nshards, n_examples, out_path):
             b["count"] += 1
             if len(common.jdump(case)) < len(common.jdump(b["case"])):
                 b["case"], b["msg"] = case, v["msg"]
+        # partial results, so that a shard that later runs into the runner's time limit is not lost
+        if time.time() - last_partial[0] > 20.0:
+            last_partial[0] = time.time()
+            dump_stats(out_path + ".partial")
 
-    def dump_stats():
+    def dump_stats(path=None):
         out = dict(stats)
         out["nontrivial_hashes"] = sorted(stats["nontrivial_hashes"])
         out["wall_s"] = time.time() - t0
-        with open(out_path, "w") as f:
+        out["last_case"] = LAST_CASE[0]
+        path = path or out_path
+        with open(path + ".tmp", "w") as f:
             f.write(common.jdump(out))
+        os.replace(path + ".tmp", path)
+
+    last_partial = [time.time()]
 
     def on_stall(msg):
         case = LAST_CASE[0]
